@@ -93,6 +93,11 @@ def _exponential_prior_filter(rep, tier, seed):
     while len(insts) < (6 if tier == "quick" else 40):
         inst = priors.expprior_instance(rng)
         if inst["n"] >= 2 and not inst["ou"]:
+            # this replay uses the LINEAR prior ODE (the nonlinear variant is decided under C09): remove the quadratic term
+            n_, d_ = inst["n"], inst["d"]
+            for a in range(d_ - 1):
+                inst["A"][(n_ - 1) * d_ + a][a + 1] -= 2 * inst["quad"][a] * inst["tc0"][0][a + 1]
+            inst["quad"] = [0] * d_
             insts.append(inst)
     res, dropped, st, gen, fail = exact.eval_instances("ExpGramExact", [priors.expgram_tla(i) for i in insts], invariants=["CheckAndPrint"], batch=6)
     rep.states += st
